@@ -177,6 +177,9 @@ func checkC18(c C18Case) Outcome {
 	rb.WriteString("SecRule ARGS \"@rx old-932101\" \\\n    \"id:932101,\\\n    t:none\"\n")
 	rulesText := rb.String()
 	tree["rules/REQUEST-932-X.conf"] = rulesText
+	// include files with rule-shaped names: a rule argument still addresses the rule file
+	tree["regex-assembly/include/932100.ra"] = "  include_file_with_rule_name\n"
+	tree["regex-assembly/include/932100-chain1.ra"] = "  include_file_with_rule_name\n"
 	tree["rules/REQUEST-000-Y.conf"] = "SecRule ARGS \"@rx old-000000\" \\\n    \"id:000000,\\\n    t:none\"\n"
 	if err := tree.Write(root); err != nil {
 		panic(err)
